@@ -14,5 +14,15 @@ int main(int argc, char **argv) {
     spec_sha1(m, n, d); hex("sha1", d, 20);
     spec_sha256(m, n, d); hex("sha256", d, 32);
     spec_sha512(m, n, d); hex("sha512", d, 64);
+    /* the re-ordered SHA-1 form used by the decomposed block equivalence must agree with the FIPS-order form */
+    { unsigned char blk[64]; uint32_t A[5], B[5]; int bad = 0;
+      for(long p = 0; p + 64 <= n || p == 0; p += 64) {
+          for(int i = 0; i < 64; i++) blk[i] = p + i < n ? m[p + i] : (unsigned char)(i * 37 + p);
+          for(int i = 0; i < 5; i++) A[i] = B[i] = SPEC_SHA1_IV(i) ^ (uint32_t)(p * 2654435761u);
+          spec_sha1_compress(A, blk); spec_sha1_compress_ord(B, blk);
+          for(int i = 0; i < 5; i++) bad |= A[i] != B[i];
+          if(p + 64 > n) break;
+      }
+      printf("sha1ord %s\n", bad ? "MISMATCH" : "ok"); }
     return 0;
 }
